@@ -172,7 +172,7 @@ impl Check for ProxyCheck {
                         .collect();
                     ops.push(json!({"shape": shape, "keys": keys, "relayout": rng.chance(1, 12)}));
                 }
-                json!({"engine": "cluster", "mode": "routing-exact", "seed": seed, "active_redirection": rng.chance(1, 3), "layout_seed": rng.next(), "gaps": rng.chance(1, 2), "ops": ops})
+                json!({"engine": "cluster", "mode": "routing-exact", "seed": seed, "active_redirection": rng.chance(1, 3), "max_redirections": rng.range(2, 4), "layout_seed": rng.next(), "gaps": rng.chance(1, 2), "ops": ops})
             }
             _ => {
                 let n = rng.range(15, 50);
@@ -180,10 +180,10 @@ impl Check for ProxyCheck {
                 for _ in 0..n {
                     let shape = *rng.pick(&["SET", "SET", "SETOPT", "SETEX", "PSETEX", "SETNX", "GETSET", "MSET", "MSETNX", "GET", "GET", "MGET", "GETSET", "RESTRICTED", "OTHER"]);
                     let size = *rng.pick(&[0usize, 1, 3, 10, 100, 1000, 5000, 70_000, 262_144]);
-                    let vkind = *rng.pick(&["ascii", "binary", "zeros", "random"]);
+                    let vkind = *rng.pick(&["ascii", "binary", "zeros", "random", "ascii", "binary", "zeros", "random", "zframe", "zmagic"]);
                     ops.push(json!({"shape": shape, "k": rng.below(8), "k2": rng.below(8), "size": size, "vkind": vkind, "vseed": rng.next(), "via": rng.below(2), "opt": *rng.pick(&["EX", "PX", "NX", "XX", "KEEPTTL"])}));
                 }
-                json!({"engine": "cluster", "mode": "compression", "seed": seed, "strategy": *rng.pick(&["disabled", "set_get_only", "allow_all", "allow_all", "set_get_only"]), "active_redirection": rng.chance(1, 3), "ops": ops})
+                json!({"engine": "cluster", "mode": "compression", "seed": seed, "strategy": *rng.pick(&["disabled", "set_get_only", "allow_all", "allow_all", "set_get_only"]), "active_redirection": rng.chance(1, 3), "max_redirections": rng.range(2, 4), "ops": ops})
             }
         }
     }
@@ -496,7 +496,7 @@ async fn run_c09(plan: &Value, want_sample: bool) -> RunRecord {
     let seed = plan["seed"].as_u64().unwrap_or(0);
     let redirect = plan["active_redirection"].as_bool().unwrap_or(false);
     let net = Net::new(seed, 2);
-    let pp = ProxyParams { active_redirection: redirect, ..Default::default() };
+    let pp = ProxyParams { active_redirection: redirect, max_redirections: plan["max_redirections"].as_u64().unwrap_or(4) as usize, ..Default::default() };
     for h in 0..3 {
         spawn_redis_nodes(&net, h, 0, seed);
     }
@@ -704,6 +704,17 @@ fn gen_value(kind: &str, size: usize, seed: u64) -> Vec<u8> {
         "ascii" => (0..size).map(|i| b"abcdefghij klmnop"[(i + seed as usize) % 17]).collect(),
         "zeros" => vec![0u8; size],
         "binary" => (0..size).map(|i| [0u8, 13, 10, 255, 36, 42][(i * 7 + seed as usize) % 6]).collect(),
+        // values that look like what the proxy itself stores: a complete zstd frame, and
+        // arbitrary bytes behind the zstd magic number
+        "zframe" => {
+            let inner: Vec<u8> = (0..size).map(|i| b"abcdefghij klmnop"[(i + seed as usize) % 17]).collect();
+            zstd::encode_all(&inner[..], 1).unwrap_or(inner)
+        }
+        "zmagic" => {
+            let mut v = vec![0x28u8, 0xB5, 0x2F, 0xFD];
+            v.extend(rng.bytes(size));
+            v
+        }
         _ => rng.bytes(size),
     }
 }
@@ -714,7 +725,7 @@ async fn run_c20(plan: &Value, want_sample: bool) -> RunRecord {
     let strategy = plan["strategy"].as_str().unwrap_or("disabled").to_string();
     let redirect = plan["active_redirection"].as_bool().unwrap_or(false);
     let net = Net::new(seed, 2);
-    let pp = ProxyParams { active_redirection: redirect, ..Default::default() };
+    let pp = ProxyParams { active_redirection: redirect, max_redirections: plan["max_redirections"].as_u64().unwrap_or(4) as usize, ..Default::default() };
     for h in 0..2 {
         spawn_redis_nodes(&net, h, 0, seed);
     }
